@@ -51,7 +51,9 @@ class Arr:
         self.deleted = {}               # (disk, pos) -> True: block of a file deleted since the sync (DELETED once scanned)
         self.silent = {}                # (disk, pos) -> original block bytes   (silent corruption in place)
         self.pcorrupt = {}              # (level, pos) -> original parity block bytes
-        self.changed = {}               # (disk, name) -> 'content' | 'touch' | 'missing'
+        self.changed = {}               # (disk, name) -> 'content' | 'touch' | 'missing' | ('trunc', blocks kept)
+        self.ptrunc = {}                # parity level -> (first missing position, the bytes cut off)
+        self.first_sync_flags = []      # e.g. --test-force-murmur3 for the rehash family
         self.just = {}                  # pos -> tracked justsynced bit
         self.batch = 0
         self._viol = viol               # callback(tag, what, replay, kind)
@@ -182,6 +184,8 @@ class Arr:
             self.restore_data(*key)
         for key in list(self.pcorrupt):
             self.restore_parity(*key)
+        for l in list(self.ptrunc):
+            self.restore_parity_tail(l)
 
     def sync(self, partial=None):
         self.heal()
@@ -191,7 +195,8 @@ class Arr:
             args = ['sync', '-S', str(partial[0]), '-B', str(partial[1])]
         else:
             args = ['sync'] + (['-B', str(partial)] if partial is not None else [])
-        rc, out, lt = self.run(args)
+        rc, out, lt = self.run(self.first_sync_flags + args)
+        self.first_sync_flags = []
         self.history.append({'op': 'sync', 'T': self.T, 'partial': partial})
         if rc != 0:
             raise HarnessError('sync failed: ' + out[-400:])
@@ -218,6 +223,19 @@ class Arr:
 
     def path(self, disk, name):
         return os.path.join(self.root, disk, name)
+
+    def rehash(self):
+        """`snapraid rehash`: schedules the migration to the default hash (the array was created with another one);
+        every used stripe gets the rehash mark, a verified scrub migrates the stripe and clears it"""
+        self.heal()
+        self.tick()
+        rc, out, lt = self.run(['rehash'])
+        self.history.append({'op': 'rehash', 'T': self.T})
+        if rc != 0:
+            raise HarnessError('rehash failed: ' + out[-300:])
+        blocks, hist, _ = self.status()
+        if not any(b['rehash'] for b in blocks):
+            raise HarnessError('rehash did not mark any stripe: ' + out[-200:])
 
     def corrupt_data(self, disk, pos):
         """silent corruption: same size, same mtime"""
@@ -266,6 +284,27 @@ class Arr:
         self.pcorrupt[(level, pos)] = orig
         return True
 
+    def truncate_parity(self, level, cut):
+        """the parity file loses everything from position `cut` on (reads there fail, not with EIO)"""
+        if level in self.ptrunc or any(l == level and pos >= cut for (l, pos) in self.pcorrupt):
+            return False
+        p = os.path.join(self.root, 'p%d' % (level + 1), 'parity')
+        size = os.path.getsize(p)
+        if cut * 1024 >= size:
+            return False
+        with open(p, 'r+b') as fh:
+            fh.seek(cut * 1024)
+            tail = fh.read()
+            fh.truncate(cut * 1024)
+        self.ptrunc[level] = (cut, tail)
+        return True
+
+    def restore_parity_tail(self, level):
+        cut, tail = self.ptrunc.pop(level)
+        with open(os.path.join(self.root, 'p%d' % (level + 1), 'parity'), 'r+b') as fh:
+            fh.seek(cut * 1024)
+            fh.write(tail)
+
     def restore_parity(self, level, pos):
         orig = self.pcorrupt.pop((level, pos))
         with open(os.path.join(self.root, 'p%d' % (level + 1), 'parity'), 'r+b') as fh:
@@ -286,6 +325,10 @@ class Arr:
             os.utime(p, ns=(f['mtime_ns'] + 5 * 10 ** 9, f['mtime_ns'] + 5 * 10 ** 9))
         elif kind == 'touch':
             os.utime(p, ns=(f['mtime_ns'] + 7 * 10 ** 9, f['mtime_ns'] + 7 * 10 ** 9))
+        elif isinstance(kind, tuple):      # ('trunc', k): only the first k blocks are left, mtime kept or not
+            os.truncate(p, kind[1] * 1024)
+            mt = f['mtime_ns'] + (kind[2] if len(kind) > 2 else 0)
+            os.utime(p, ns=(mt, mt))
         else:
             os.rename(p, os.path.join(self.root, 'c1', 'hidden_%s_%s' % (disk, name)))
         self.changed[key] = kind
@@ -298,7 +341,7 @@ class Arr:
         p = self.path(disk, name)
         if kind == 'missing':
             os.rename(os.path.join(self.root, 'c1', 'hidden_%s_%s' % (disk, name)), p)
-        elif kind == 'content':
+        elif kind == 'content' or isinstance(kind, tuple):
             open(p, 'wb').write(f['data'])
         os.utime(p, ns=(f['mtime_ns'], f['mtime_ns']))
 
@@ -334,21 +377,26 @@ class Arr:
                 blk = 'B'
             ch = self.changed.get(key)
             st = 'D'
-            if ch == 'missing':
-                st = 'e'
+            if ch == 'missing' or (isinstance(ch, tuple) and idx >= ch[1]):
+                st = 'e'                     # open fails / read past the end of a truncated file
             if eio is not None and eio == (d, pos):
                 st = 'i'
-            ts = 1 if ch in ('content', 'touch') else 0
+            ts = 1 if (ch in ('content', 'touch') or isinstance(ch, tuple)) else 0
             heq = 0 if ((d, pos) in self.silent or ch == 'content') else 1
             ds.append('1%s%d%s%d' % (blk, ts, st, heq))
         ps = []
         for l in range(self.npar):
             eq = 0 if ((l, pos) in self.pcorrupt or any_chg) else 1
-            ps.append('D%d' % eq)
+            st = 'D'
+            if l in self.ptrunc and pos >= self.ptrunc[l][0]:
+                st = 'e'                     # read past the end of a truncated parity file
+            if eio is not None and eio == ('parity', l, pos):
+                st = 'i'
+            ps.append('%s%d' % (st, eq))
         return ds, ps
 
     # ------------------------------------------------------------------ one checked scrub
-    def scrub(self, parg, older, test=None, eio=None, dt=None, tag='walk', no_oracle=False):
+    def scrub(self, parg, older, test=None, eio=None, dt=None, tag='walk', no_oracle=False, limit=None):
         """parg: None | 'bad' | 'new' | 'full' | int;  older: None | int;  test: None | ('at', n) | ('even',)
         eio: None | (disk, pos).  Runs the binary and the model, compares, reports through self.viol."""
         if self.failed:
@@ -373,10 +421,18 @@ class Arr:
         if test and test[0] == 'even':
             args += ['--test-force-scrub-even']
         env = None
-        if eio is not None:
+        if limit is not None:
+            args += ['-L', str(limit)]
+        if eio is not None and eio[0] == 'parity':
+            env = {'C15_EIO_PATH': 'p%d/parity' % (eio[1] + 1), 'C15_EIO_OFFSET': str(eio[2] * 1024)}
+        elif eio is not None:
             name, idx = self.owner[eio[0]][eio[1]]
             env = {'C15_EIO_PATH': '%s/%s' % (eio[0], name), 'C15_EIO_OFFSET': str(idx * 1024)}
         self.stats['eio_scrubs'] += 1 if eio is not None else 0
+        self.stats['parity_unreadable_scrubs'] += 1 if (self.ptrunc or (eio is not None and eio[0] == 'parity')) else 0
+        self.stats['truncated_file_scrubs'] += 1 if any(isinstance(v, tuple) for v in self.changed.values()) else 0
+        self.stats['rehash_scrubs'] += 1 if any(b['rehash'] for b in blocks) else 0
+        self.stats['limit_scrubs'] += 1 if limit is not None else 0
         self.stats['pending_scrubs'] += 1 if any(b['unsynced'] for b in blocks) else 0
         self.stats['deleted_scrubs'] += 1 if any(blocks[pos]['unsynced'] and blocks[pos]['used'] for (d, pos) in self.deleted if pos < len(blocks)) else 0
         self.stats['changed_scrubs'] += 1 if self.changed else 0
@@ -455,11 +511,15 @@ class Arr:
         outcome_kinds = {}
         for k in sorted(msel_set):
             ds, ps = self.stripe_tasks(k, blocks, eio)
-            sl = 'stripe 100 %d %d %d %d %d %d %s %d %s' % (cnt[0], cnt[1], cnt[2], ws[k], now, len(ds), ' '.join(ds), len(ps), ' '.join(ps))
+            sl = 'stripe %d %d %d %d %d %d %d %s %d %s' % (100 if limit is None else limit, cnt[0], cnt[1], cnt[2], ws[k], now, len(ds), ' '.join(ds), len(ps), ' '.join(ps))
             so = self.model.ask(sl)
             m3 = re.match(r'info (\d+) (\d+) (\d+) (\d+) verified=([01]) damaged=([01])$', so)
             if not m3:
-                bail = True
+                if so != 'bail':
+                    raise HarnessError('model output: ' + so)
+                bail = True                  # the run stops here: this stripe and the later ones are not booked
+                msel_set = set(q for q in msel_set if q <= k)
+                case['bail_at'] = k
                 break
             exp_words[k] = int(m3.group(1))
             cnt = [int(m3.group(2)), int(m3.group(3)), int(m3.group(4))]
@@ -480,6 +540,10 @@ class Arr:
         case['expected_after'] = exp_words
 
         # selection: tool vs model vs property
+        if bail:
+            osel = msel_set           # the plan was cut short by the error limit: the plan oracle does not apply
+            # the reader threads run ahead and may already have logged errors for stripes the main loop never booked
+            observed = set(q for q in observed if q <= case['bail_at'])
         if observed != msel_set:
             if osel == observed:
                 self.viol('drift_select', 'MODEL-DRIFT: model selects %s, tool and oracle %s' % (sorted(msel_set), sorted(observed)), case, 'drift')
@@ -488,7 +552,7 @@ class Arr:
                           (sorted(observed), sorted(msel_set), sorted(msel_set - observed), sorted(observed - msel_set)), case, 'c')
         elif osel != msel_set:
             self.viol('drift_select_oracle', 'MODEL-DRIFT: model and tool select %s, the property oracle %s' % (sorted(msel_set), sorted(osel)), case, 'drift')
-        for msg in ([] if no_oracle else orc.plan_properties(ws, parg, older, now, test, observed, tags)):
+        for msg in ([] if (no_oracle or bail) else orc.plan_properties(ws, parg, older, now, test, observed, tags)):
             self.viol('prop', 'plan property violated by the tool: ' + msg, case, 'c')
         # books
         if ws2 != exp_words:
@@ -504,6 +568,8 @@ class Arr:
         exp_s = {'error_file': cnt[0], 'error_data': cnt[1], 'error_io': cnt[2]}
         if not bail and summ_l != exp_s:
             self.viol('counters', 'scrub summary %s differs from the model counters %s' % (summ_l, exp_s), case, 'c')
+        if bail and rc == 0:
+            self.viol('exit', 'scrub stopped by the error limit but exit status 0', case, 'c')
         if not bail and (rc != 0) != (sum(cnt) != 0):
             self.viol('exit', 'scrub exit status %d with error counters %s' % (rc, cnt), case, 'c')
         if int(summ2.get('has_bad', '0:0:0').split(':')[0]) != sum(1 for w in ws2 if w & 1):
@@ -532,16 +598,21 @@ class Arr:
             key = (d, name)
             pend = key in self.pending and blocks[pos]['unsynced']
             ch = self.changed.get(key)
-            if pend or ch in ('content', 'touch'):
+            if pend or ch in ('content', 'touch') or isinstance(ch, tuple):
                 unsynced = True
             if eio == (d, pos):
                 io = True
-            elif ch == 'missing':
+            elif ch == 'missing' or (isinstance(ch, tuple) and idx >= ch[1]):
                 other = True
             elif ch == 'content':
                 other = True          # differs, but the file is known to have changed
             elif (d, pos) in self.silent and not pend:
                 silent = True
+        for l in range(self.npar):
+            if eio == ('parity', l, pos):
+                io = True                 # an I/O error on the parity
+            elif l in self.ptrunc and pos >= self.ptrunc[l][0]:
+                other = True              # a parity level that could not be read: nothing can be concluded
         if io or silent:
             return 'damaged'
         if other:
@@ -566,6 +637,8 @@ class Arr:
                         self.restore_data(x, pos)
                     else:
                         self.restore_parity(x, pos)
+        for l in list(self.ptrunc):
+            self.restore_parity_tail(l)
         self.tick()
         rc, out, lt = self.run(['-e', 'fix'])
         self.history.append({'op': 'fix -e', 'T': self.T})
@@ -644,9 +717,13 @@ def random_plan(rng, ws, now):
     return pct, older, None
 
 
-def scenario_walk(a, steps, viol):
-    """a natural history: batches synced at different times, damage, scrubs of every plan, fix -e, scrub -p bad"""
+def scenario_walk(a, steps, viol, rehash=False):
+    """a natural history: batches synced at different times, damage, scrubs of every plan, fix -e, scrub -p bad.
+    rehash=True: the array is created with murmur3, then `snapraid rehash` schedules the migration, so the scrubs
+    run the rehash branch (old hash compared, new hash stored only for verified stripes, mark cleared)"""
     rng = a.rng
+    if rehash:
+        a.first_sync_flags = ['--test-force-murmur3']
     # first batches: unequal disks so that later batches overlap existing stripes
     for b in range(rng.randrange(3, 7)):
         spec = []
@@ -658,7 +735,30 @@ def scenario_walk(a, steps, viol):
         a.add_files(spec)
         a.tick(rng.choice([DAY, 2 * DAY, 5 * DAY, 3600]))
         a.sync()
-    for step in range(steps):
+    if rehash:
+        a.rehash()
+        if rng.random() < 0.6:
+            # aimed at the per-disk rehash slots: a stripe with an error on disk Y while the short disk X hashes fine,
+            # followed in the same run by verified stripes where X has no block; afterwards everything is repaired by
+            # hand and a full scrub must verify every stripe (the new hashes must have gone to the right blocks only)
+            x = min(a.disks, key=lambda d: a.alloc[d])
+            cand = [(y, q) for q in range(a.alloc[x]) for y in a.disks if y != x and q in a.owner[y] and q in a.owner[x]]
+            holes = [q for q in range(a.alloc[x], max(a.alloc.values()))]
+            if cand and holes:
+                for (y, q) in rng.sample(cand, min(len(cand), rng.randrange(1, 3))):
+                    a.corrupt_data(y, q)
+                a.scrub('full' if rng.random() < 0.6 else 100, None if rng.random() < 0.6 else 0, dt=DAY, tag='rehash_slots')
+                a.heal()
+                a.scrub('full', None, dt=DAY, tag='rehash_slots')
+                a.scrub('bad', None, dt=DAY, tag='rehash_slots')
+    for step in range(steps + 1):
+        if step == steps:
+            # the end of every history: everything repaired by hand, then two full scrubs must verify every stripe
+            # (a hash or mark damaged by an earlier run would show up here as an error on identical data)
+            a.heal()
+            a.scrub('full', None, dt=DAY, tag='final')
+            a.scrub('full', None, dt=DAY, tag='final')
+            break
         r = rng.random()
         blocks, hist, _ = a.status()
         ws = a.words(blocks)
@@ -685,15 +785,34 @@ def scenario_walk(a, steps, viol):
         elif r < 0.42 and a.files:
             for _ in range(rng.randrange(1, 3)):
                 (d, name) = rng.choice(sorted(a.files))
-                a.change_file(d, name, rng.choice(['content', 'touch', 'missing']))
+                kind = rng.choice(['content', 'touch', 'missing', 'trunc'])
+                if kind == 'trunc':
+                    kind = ('trunc', rng.randrange(0, a.files[(d, name)]['nblk']), rng.choice([0, 3 * 10 ** 9]))
+                a.change_file(d, name, kind)
+        elif r < 0.50 and usedpos:
+            # a parity level that cannot be read from some position on (file cut short)
+            a.truncate_parity(rng.randrange(a.npar), rng.randrange(0, len(ws)))
         parg, older, test = random_plan(rng, ws, a.T)
         eio = None
-        if rng.random() < 0.10 and usedpos:
+        limit = None
+        if rng.random() < 0.14 and usedpos:
             pos = rng.choice(usedpos)
             ds = [d for d in a.disks if pos in a.owner[d] and (d, a.owner[d][pos][0]) not in a.changed]
-            if ds:
+            # (an EIO followed, on the same disk / parity level, by a read past the end of a truncated file is kept out
+            #  of the walks: the reader then sees the stale errno, see probe_stale_errno)
+            ds = [d for d in ds if not any(isinstance(v, tuple) and k2[0] == d for k2, v in a.changed.items())]
+            if rng.random() < 0.35:
+                l = rng.randrange(a.npar)
+                if l not in a.ptrunc:
+                    eio = ('parity', l, pos)          # I/O error reading the parity
+            elif ds:
                 eio = (rng.choice(ds), pos)
-        a.scrub(parg, older, test, eio=eio, dt=rng.choice([None, None, DAY, 10 * DAY, 12 * DAY]))
+            if eio is not None and rng.random() < 0.25:
+                limit = 1                             # -L 1: the run stops at the first I/O error
+        a.scrub(parg, older, test, eio=eio, dt=rng.choice([None, None, DAY, 10 * DAY, 12 * DAY]), limit=limit)
+        for l in list(a.ptrunc):
+            if rng.random() < 0.6:
+                a.restore_parity_tail(l)
         # undo the unsynced changes (the array is back in sync without a new sync)
         for (d, name) in list(a.changed):
             if rng.random() < 0.6:
@@ -826,13 +945,97 @@ def install(a, groups, m):
         a.scrub('bad', None, dt=rng.choice([DAY, DAY, 2 * DAY, DAY + 5, 5 * DAY]), tag='install')
 
 
+STALE_ERRNO_KEY = 'F-C15-stale-errno-eio'
+
+
+def new_stats():
+    return {'tool_runs': 0, 'scrubs': 0, 'fixes': 0, 'refused': 0, 'selected_total': 0, 'plans': {}, 'cases': [], 'eio_scrubs': 0,
+            'pending_scrubs': 0, 'changed_scrubs': 0, 'deleted_scrubs': 0, 'parity_unreadable_scrubs': 0, 'truncated_file_scrubs': 0,
+            'rehash_scrubs': 0, 'limit_scrubs': 0, 'outcomes': {'verified': 0, 'damaged': 0, 'inconclusive': 0}}
+
+
+def probe_misc(tool, shim, model_exe, chk, seed):
+    """(1) an array without any block: scrub must refuse ("The array appears to be empty", model LimFatalEmpty);
+    (2) the clock set back: a scrub running at a time earlier than some check times.  The stripes it does not select
+    must not look verified afterwards: time not raised, marks kept (state.c clamps times in the future to `now` when
+    saving, see F-C10a; that lowering is recorded as an observation).  Oracle only, no model."""
+    import random
+    found = []
+    obs = {}
+    m = Model(model_exe)
+    a = Arr('misc', tool, shim, m, random.Random(seed), 2, 1, 1700000000, lambda tag, what, r, kind: found.append((tag, what, r, kind)), new_stats())
+    try:
+        rc, out, lt = a.run(['sync'])
+        a.scrub(None, None, tag='empty')
+        a.scrub('full', None, tag='empty')
+        obs['empty_array_refused'] = a.stats['refused']
+        a.failed = False
+        a.add_files([('d1', 2), ('d2', 3)])
+        a.sync()
+        a.tick(5 * DAY)
+        a.add_files([('d1', 2)])
+        a.sync()
+        blocks, _, _ = a.status()
+        ws = a.words(blocks)
+        back = a.T - 2 * DAY
+        dig0 = a.tree_digest()
+        rc, out, lt = a.run(['-p', '100', '-o', '0', 'scrub'], T=back)
+        blocks2, _, _ = a.status()
+        lowered = []
+        for k, (b0, b1) in enumerate(zip(blocks, blocks2)):
+            if b0['time'] > back:          # too new for a scrub running at `back`: not selected
+                if b1['time'] > b0['time'] or b1['bad'] != b0['bad'] or b1['rehash'] != b0['rehash']:
+                    found.append(('clock_back', 'a scrub running with the clock set back changed stripe %d it did not verify: %s -> %s' % (k, b0, b1),
+                                  {'before': blocks, 'after': blocks2, 'now': back}, 'c'))
+                if b1['time'] < b0['time']:
+                    lowered.append((k, b0['time'], b1['time']))
+            elif b1['time'] != (back & ~7):
+                found.append(('clock_back', 'stripe %d selected by -p 100 -o 0 at %d not refreshed: %s' % (k, back, b1), {'before': blocks, 'after': blocks2}, 'c'))
+        if a.tree_digest() != dig0:
+            found.append(('clock_back', 'scrub modified data or parity', {}, 'c'))
+        obs['clock_back_times_lowered'] = lowered
+    finally:
+        m.close()
+        shutil.rmtree(a.root, ignore_errors=True)
+    return obs, found
+
+
+def probe_stale_errno(tool, shim, model_exe, chk, seed):
+    """candidate finding: scrub_data_reader / scrub_parity_reader look at errno after handle_read / parity_read
+    returned -1 for a read past the end of a (truncated) file, a path that does not set errno.  After one genuine EIO on
+    the same disk (same reader thread) the stale EIO makes the stripe of a file *changed since the last sync* an
+    I/O error: it is marked bad.  Returns (reproduced, description, replay object)."""
+    import random
+    stats = new_stats()
+    m = Model(model_exe)
+    a = Arr('stale', tool, shim, m, random.Random(seed), 2, 1, 1700000000, lambda *x: None, stats)
+    try:
+        a.add_files([('d1', 1), ('d1', 1), ('d1', 3), ('d2', 5)])      # d1: stripes 0, 1, 2-4; d2: stripes 0-4
+        a.sync()
+        name = sorted(n for (d, n) in a.files if d == 'd1')[2]
+        a.change_file('d1', name, ('trunc', 1, 5 * 10 ** 9))            # stripes 3 and 4 are now past the end of the file
+        a.tick(DAY)
+        first = sorted(n for (d, n) in a.files if d == 'd1')[0]
+        rc, out, lt = a.run(['-p', 'full', 'scrub'], extra_env={'C15_EIO_PATH': 'd1/' + first, 'C15_EIO_OFFSET': '0'})
+        blocks, _, _ = a.status()
+        bad = [k for k, b in enumerate(blocks) if b['bad']]
+        tags = re.findall(r'^(error:\d+:[^:]*:[^:]*: [A-Za-z ]+)', lt, re.M)
+        recipe = {'conf': '2 data disks, 1 parity, blocksize 1', 'files': 'd1: a (1 KiB), b (1 KiB), c (3 KiB); d2: z (5 KiB); sync',
+                  'change': 'truncate -s 1024 d1/c (and new mtime)', 'scrub': '-p full with pread(d1/a, offset 0) failing with EIO (harness/c/c15_shim.c)',
+                  'bad_stripes_after': bad, 'error_tags': tags, 'exit': rc}
+        return (3 in bad or 4 in bad), 'stripes %s marked bad; expected only stripe 0 (the genuine EIO); tags %s' % (bad, tags), recipe
+    finally:
+        m.close()
+        shutil.rmtree(a.root, ignore_errors=True)
+
+
 def probe_wraparound(tool, shim, model_exe, chk, seed):
     """replay of the witnesses of C15_plan_number_range_refuted / C15_older_number_range_refuted on the binary:
     numbers whose low 32 bits are a negative int pass the range test of snapraid.c and act as named plans.
     Model and binary must agree (the oracle of the property is not consulted: it would refuse these numbers)."""
     import random
     stats = {'tool_runs': 0, 'scrubs': 0, 'fixes': 0, 'refused': 0, 'selected_total': 0, 'plans': {}, 'cases': [], 'eio_scrubs': 0,
-             'pending_scrubs': 0, 'changed_scrubs': 0, 'deleted_scrubs': 0, 'outcomes': {'verified': 0, 'damaged': 0, 'inconclusive': 0}}
+             'pending_scrubs': 0, 'changed_scrubs': 0, 'deleted_scrubs': 0, 'parity_unreadable_scrubs': 0, 'truncated_file_scrubs': 0, 'rehash_scrubs': 0, 'limit_scrubs': 0, 'outcomes': {'verified': 0, 'damaged': 0, 'inconclusive': 0}}
     found = []
 
     def viol(tag, what, replay_obj, kind):
@@ -1014,7 +1217,7 @@ def main(tier, replay=None):
         import random, traceback
         rng = random.Random(seed)
         stats = {'tool_runs': 0, 'scrubs': 0, 'fixes': 0, 'refused': 0, 'selected_total': 0, 'plans': {}, 'cases': [], 'eio_scrubs': 0,
-                 'pending_scrubs': 0, 'changed_scrubs': 0, 'deleted_scrubs': 0,
+                 'pending_scrubs': 0, 'changed_scrubs': 0, 'deleted_scrubs': 0, 'parity_unreadable_scrubs': 0, 'truncated_file_scrubs': 0, 'rehash_scrubs': 0, 'limit_scrubs': 0,
                  'outcomes': {'verified': 0, 'damaged': 0, 'inconclusive': 0}}
         name = '%s%d' % (kind, idx)
         m = Model(model_exe)
@@ -1024,6 +1227,8 @@ def main(tier, replay=None):
         try:
             if kind == 'walk':
                 scenario_walk(a, steps, a.viol)
+            elif kind == 'rehash':
+                scenario_walk(a, steps, a.viol, rehash=True)
             elif kind == 'deleted':
                 scenario_deleted(a, steps, a.viol)
             else:
@@ -1090,6 +1295,8 @@ def main(tier, replay=None):
     for i in range(nwalk):
         t0 = rng.choice([1700000000, 1700000000, 1000000, 4000000000, 1234567])
         specs.append(('walk', i, rng.getrandbits(48), rng.choice([2, 3, 3, 4]), rng.choice([1, 2, 2, 3]), t0 + rng.randrange(0, 8), wsteps))
+    for i in range(6 if tier == 'quick' else 24):
+        specs.append(('rehash', i, rng.getrandbits(48), rng.choice([3, 3, 4]), rng.choice([1, 2]), 1700000000 + rng.randrange(0, 8), 16 if tier == 'quick' else 40))
     for i in range(10 if tier == 'quick' else 40):
         specs.append(('deleted', i, rng.getrandbits(48), 3, rng.choice([1, 2]), 1700000000 + rng.randrange(0, 8), 3))
     for i in range(nties):
@@ -1118,6 +1325,33 @@ def main(tier, replay=None):
                                  'snapraid.c:660 stores strtoul() in an int before testing `plan > 100` (C15_plan_number_range_refuted)')
         except Exception as e:
             chk.notes.append('wrap-around probe failed: %s' % str(e)[:200])
+
+    # ---- empty array, clock set back
+    if not replay:
+        try:
+            mobs, mfound = probe_misc(tool, shim, model_exe, chk, chk.seed)
+            chk.cov['misc_probe'] = mobs
+            for tag, what, robj, kind in mfound[:2]:
+                chk.violation('misc_' + tag, what, robj, no_input=(kind == 'drift'))
+            if mobs.get('empty_array_refused', 0) < 2:
+                chk.violation('misc_empty', 'scrub of an array without blocks was not refused', mobs, no_input=True)
+        except Exception as e:
+            chk.notes.append('inconclusive: misc probe stopped by %s: %s' % (type(e).__name__, str(e)[:200]))
+
+    # ---- candidate finding: stale errno after a genuine EIO (reported as KNOWN-FINDING once it is listed as open)
+    if not replay:
+        try:
+            hit, desc, recipe = probe_stale_errno(tool, shim, model_exe, chk, chk.seed)
+            chk.cov['stale_errno_probe'] = {'reproduced': hit, 'observed': desc}
+            if hit:
+                what = ('scrub marks bad the stripes of a file truncated since the last sync (read past its end) when an earlier read of the same '
+                        'disk failed with EIO: scrub.c:198 tests a stale errno; ' + desc)
+                if any(k.get('status') == 'open' and k.get('key') == STALE_ERRNO_KEY for k in chk.kf):
+                    chk.violation('stale_errno', what, recipe, finding_key=STALE_ERRNO_KEY)
+                else:
+                    chk.notes.append('candidate finding %s (not listed in known_findings.json, so not raised): %s' % (STALE_ERRNO_KEY, what))
+        except Exception as e:
+            chk.notes.append('stale errno probe failed: %s' % str(e)[:200])
 
     # ---- failing-input search on the model and the exhaustive stripe book-keeping comparison
     mbad, nontriv_m, nm = model_search(chk, model_exe, 4000 if tier == 'quick' else 40000)
@@ -1157,6 +1391,10 @@ def main(tier, replay=None):
         'scrubs_with_pending_blocks': sum(s['pending_scrubs'] for s in stats_all),
         'scrubs_with_changed_files': sum(s['changed_scrubs'] for s in stats_all),
         'scrubs_with_deleted_blocks_on_record': sum(s['deleted_scrubs'] for s in stats_all),
+        'scrubs_with_unreadable_parity': sum(s['parity_unreadable_scrubs'] for s in stats_all),
+        'scrubs_with_truncated_files': sum(s['truncated_file_scrubs'] for s in stats_all),
+        'scrubs_with_rehash_marks': sum(s['rehash_scrubs'] for s in stats_all),
+        'scrubs_with_error_limit': sum(s['limit_scrubs'] for s in stats_all),
         'plans_run': plans, 'stripe_outcomes_on_binary': outc,
         'tie_cut_cases': sum(1 for c in cases if c['tie_cut']), 'cases_with_bad_marks': sum(1 for c in cases if c['bad']),
         'stripes_selected_total': sum(s['selected_total'] for s in stats_all),
@@ -1173,5 +1411,9 @@ def main(tier, replay=None):
     chk.assumptions += ['times below 2^32 (year 2106) and clock never moved backwards between writing commands (state.c clamps future times when saving)',
                         'the qsort of scrub.c is modelled by its specification (ascending rearrangement); time_compare is a total order on time_t',
                         'hash collisions, fatal task states (TASK_STATE_ERROR/IOERROR: close/open EIO) and the autosave path are not exercised on the binary',
+                        'exercised by oracle only (not in the Coq model): how the readers classify a failed read (errno == EIO or not; the model takes the '
+                        'task state as input, candidate finding F-C15-stale-errno-eio lives there), where the rehash stores the new hashes (checked by '
+                        'repairing everything and requiring two clean full scrubs at the end of every history), the clamping of future times when the content is saved',
+                        'never reached on the binary: a disk slot without disk (scrub.c:118), the autosave inside scrub (needs > 1 GB arrays), the signal break, close errors',
                         'stripe -> file layout is predicted by the harness (files are only ever added, alpha order) and validated by the positions in the error: tags']
     return chk.finish()
